@@ -43,7 +43,7 @@ CLAIMS = {
  "C08": dict(cat="proof", tech="Lean 4 proof (Except-model of every panic point of the portable path, both profiles, induction over histories) + catch_unwind correspondence in dev and release + #[no_panic] link check of every public op",
    text="Kernel-checked: with every slice/index/split_at/copy_from_slice check (both profiles) and every debug_assert/overflow check (debug profile) of internal.rs/portable.rs written out in Except, append, finalize64/128/256, checkpoint and from_checkpoint(ANY 164 bytes) return ok and equal the pure model under the packet invariant, which every constructor establishes and every op preserves; lifted to arbitrary histories by induction. "
         + CORR + " Dynamic: dev (overflow-checks + debug-assertions) and release runners execute every history under catch_unwind; any `panic` output is an oracle failure. Static release claim: a release (lto=fat, 1 CGU) binary with #[no_panic] wrappers around every public operation of PortableHash/SseHash/AvxHash/HighwayHasher must link.",
-   note="Partial: the Except-model covers the portable path (the SIMD remainder slices are covered by the dev-profile runs and the link check, not by a Lean model); absence of panic edges in machine code is established by the linker experiment, not by Lean. Trusted: as C02, no-panic crate, lld.", ref="4/C08"),
+   note="The Except-model covers the portable path on every pointer width >= 16 bits; for the SIMD back ends the data-dependent slicing (remainder, all 32 pending counts) is proved in range on the footprint model, their remaining panic points are the shared append skeleton; absence of panic edges in machine code is established by the linker experiment, not by Lean. Trusted: as C02, no-panic crate, lld.", ref="4/C08"),
  "C09": dict(cat="proof", tech="Lean 4 proof about an access-pattern model (every raw-pointer load of the back ends over regions with unreadable bytes, all 32 pending counts, arbitrary neighbouring memory) + guard-page placement runs + Miri as UB detector + measured layout premises",
    text="Kernel-checked on the footprint model: for every pending count 0..31 and ARBITRARY memory behind the slice (incl. an unmapped byte right after it) the SSE/AVX2/NEON remainder loads, the masked loads, and the packet loads of user data touch only bytes of the slice and return the value model's result - which has no access to addresses or neighbouring bytes, hence address independence; the AVX2 aligned loads are shown to need exactly the 16/32-byte alignment premises, which the harness measures (align_of, buffer offset) in every build. "
         "Dynamic: inputs, individual chunks and the hasher object itself placed against PROT_NONE pages, start alignments 0..63, two neighbour fills, all native back ends, dev+release; a fault or a placement-dependent result is a violation with the case as replay. Miri (x86_64 +avx2) executes SSE/AVX/dispatcher streams and its UB report is a violation. The same ops are diffed against the Lean model.",
